@@ -70,6 +70,9 @@ struct Project {
     extra_declared: bool,
     /// (importer, imported) sibling pairs
     sibling_imports: Vec<(usize, usize)>,
+    /// a module below the first submodule (`src/alpha/inner.sw`, declared by `pub mod inner;` in alpha.sw): the
+    /// module tree is three levels deep and edits can land two `mod` levels below the root
+    nested: Option<Module>,
 }
 
 fn gen_project(rng: &mut Rng, warn_class: bool) -> Project {
@@ -116,8 +119,16 @@ fn gen_project(rng: &mut Rng, warn_class: bool) -> Project {
         body = format!("__add({body}, {}_f0())", sm.name);
     }
     root.items.push(Item::Fn { name: "top".into(), ret_bool: false, body });
+    let nested = if rng.chance(1, 3) {
+        let m = Module { name: "inner".into(), uses: vec![], items: vec![Item::Fn { name: "inner_f0".into(), ret_bool: false, body: "77".into() }, Item::Const { name: "K_INNER".into(), val: 3 }, Item::Struct { name: "SInner".into(), fields: vec![("x".into(), false), ("y".into(), true)], ctor_fields: vec![("x".into(), false), ("y".into(), true)] }], broken: false, blank_lines: 0 };
+        let an = subs[0].name.clone();
+        subs[0].items.push(Item::Fn { name: format!("{an}_deep"), ret_bool: false, body: "inner::inner_f0()".into() });
+        Some(m)
+    } else {
+        None
+    };
     let extra = Module { name: "delta".into(), uses: vec![], items: vec![Item::Fn { name: "delta_f0".into(), ret_bool: false, body: "4321".into() }, Item::Const { name: "K_DELTA".into(), val: 9 }], broken: false, blank_lines: 0 };
-    Project { root, subs, sibling_imports, extra, extra_declared: false }
+    Project { root, subs, sibling_imports, extra, extra_declared: false, nested }
 }
 
 /// One edit of module `mi` (usize::MAX = root). Returns a label for traces.
@@ -244,11 +255,17 @@ fn gen(rng: &mut Rng, _sub: u64) -> Workload {
         v
     };
     let mut files = vec![("src/lib.sw".to_string(), render(&p.root, &mod_names(&p)))];
-    for m in &p.subs {
-        files.push((format!("src/{}.sw", m.name), render(m, &[])));
+    let has_nested = p.nested.is_some();
+    let sub_mods = move |i: usize| -> Vec<String> { if has_nested && i == 0 { vec!["inner".to_string()] } else { vec![] } };
+    for (i, m) in p.subs.iter().enumerate() {
+        files.push((format!("src/{}.sw", m.name), render(m, &sub_mods(i))));
     }
     files.push(("src/delta.sw".to_string(), render(&p.extra, &[])));
     let delta_doc = files.len() - 1;
+    let nested_doc = p.nested.as_ref().map(|m| {
+        files.push((format!("src/{}/inner.sw", p.subs[0].name), render(m, &[])));
+        files.len() - 1
+    });
     let mut events = vec![Ev::Open { doc: 0 }];
     for d in 1..files.len() {
         if rng.chance(2, 3) {
@@ -269,7 +286,10 @@ fn gen(rng: &mut Rng, _sub: u64) -> Workload {
     for _ in 0..n {
         // which document: 0 = root, k = sub k-1
         let mut doc = if single_doc { the_doc } else { rng.below(files.len()) };
-        if !class_t && doc >= 1 && doc != delta_doc && imported.contains(&(doc - 1)) {
+        if has_nested && rng.chance(1, 3) {
+            doc = nested_doc.unwrap(); // bias towards the deepest module
+        }
+        if !class_t && doc >= 1 && doc != delta_doc && Some(doc) != nested_doc && imported.contains(&(doc - 1)) {
             doc = 0;
         }
         let text = if doc == 0 {
@@ -283,9 +303,13 @@ fn gen(rng: &mut Rng, _sub: u64) -> Workload {
         } else if doc == delta_doc {
             mutate(rng, &mut p.extra, &mut counter);
             render(&p.extra, &[])
+        } else if Some(doc) == nested_doc {
+            let m = p.nested.as_mut().unwrap();
+            mutate(rng, m, &mut counter);
+            render(m, &[])
         } else {
             mutate(rng, &mut p.subs[doc - 1], &mut counter);
-            render(&p.subs[doc - 1], &[])
+            render(&p.subs[doc - 1], &sub_mods(doc - 1))
         };
         version[doc] += 1;
         events.push(Ev::Change { doc, version: version[doc], changes: vec![Change { range: None, text }] });
@@ -409,6 +433,9 @@ fn sig(wl: &Workload, r: &SimResult) -> Vec<String> {
     if docs.len() >= 2 {
         s.push("edits-multiple-documents".into());
     }
+    if docs.iter().any(|d| wl.files[*d].0.ends_with("/inner.sw")) {
+        s.push("edits-nested-module".into());
+    }
     if cancelled_compiles(r) > 0 {
         s.push("cancelled-compile".into());
     }
@@ -421,7 +448,8 @@ fn sig(wl: &Workload, r: &SimResult) -> Vec<String> {
     }
     // where do the two servers disagree?
     if let (Some(inc), Some(fresh), Some(last)) = (&r.obs.diagnostics, &r.obs.ref_diagnostics, last_edited_doc(wl)) {
-        let last_name = wl.files[last].0.trim_start_matches("src/");
+        // diagnostics are keyed by file name (sim.rs), so compare on the base name
+        let last_name = wl.files[last].0.rsplit('/').next().unwrap_or("");
         let differing: Vec<&str> = fresh.lines().filter(|l| !inc.lines().any(|x| x == *l)).chain(inc.lines().filter(|l| !fresh.lines().any(|x| x == *l))).collect();
         if !differing.is_empty() && differing.iter().all(|l| !l.starts_with(last_name)) {
             s.push("diagnostics-differ-only-in-files-not-edited-last".into());
@@ -455,6 +483,12 @@ fn probes(wl: &Workload, r: &SimResult) -> Vec<String> {
     }
     if wl.files.len() > 2 {
         p.push("three-or-more-files".into());
+    }
+    if wl.files.iter().any(|f| f.0.ends_with("/inner.sw")) {
+        p.push("module-tree-three-levels-deep".into());
+        if wl.events.iter().any(|e| matches!(e, Ev::Change { doc, .. } if wl.files[*doc].0.ends_with("/inner.sw"))) {
+            p.push("edit-two-mod-levels-below-the-root".into());
+        }
     }
     if wl.manifest.contains("sway-lib-std") {
         p.push("class-STD(project uses the real standard library)".into());
